@@ -40,7 +40,7 @@ func (c07) Meta() fw.Meta {
 			"CLI flag agreement is sampled (real process per invocation), not run for every candidate",
 		},
 		Obligations: []string{"newheader_accept", "newheader_reject", "create_accept", "create_reject", "parse_accept", "parse_reject", "takefrom_accept", "takefrom_reject", "open_accept", "open_reject", "cli_accept", "cli_reject",
-			"reject_equal_steps", "reject_out_of_order", "reject_size_beyond_4GiB", "reject_nondividing", "reject_equal_retention", "reject_too_few_points", "reject_zero", "reject_empty", "reject_overflow_offset", "reject_overflow_retention", "reject_method", "reject_xff_nan", "reject_xff_range", "accept_xff_negzero", "reopen_header_equal", "unit_retention_strings", "route_prefix-of-parsed-list", "route_parsed-list-extended", "route_header-list-extended", "route_header-list-cut", "route_backing-array-used-by-shorter-header", "takefrom_into_used_receiver", "open_of_padded_files", "caller_list_reused_after_create"},
+			"reject_equal_steps", "reject_out_of_order", "reject_size_beyond_4GiB", "reject_nondividing", "reject_equal_retention", "reject_too_few_points", "reject_zero", "reject_empty", "reject_overflow_offset", "reject_overflow_retention", "reject_method", "reject_xff_nan", "reject_xff_range", "accept_xff_negzero", "reopen_header_equal", "unit_retention_strings", "route_prefix-of-parsed-list", "route_parsed-list-extended", "route_header-list-extended", "route_header-list-cut", "route_backing-array-used-by-shorter-header", "takefrom_into_used_receiver", "open_of_padded_files", "caller_list_reused_after_create", "creates_after_a_rejected_create"},
 	}
 }
 
@@ -79,8 +79,18 @@ func (c07) genCandidate(c *fw.Ctx, j int) c07cand {
 		i = r.Intn(k - 1)
 	}
 	switch j % 20 { // (case 20 is only reached through the fallthrough of case 18)
-	case 0, 1, 2:
+	case 0, 1:
 		// valid as generated
+	case 2:
+		// valid, with many archives (17-30 levels, each twice as coarse as the one before)
+		if c.Index%2 == 0 {
+			n := 17 + r.Intn(14)
+			cd.Archs = cd.Archs[:0]
+			for lvl := 0; lvl < n; lvl++ {
+				cd.Archs = append(cd.Archs, model.Arch{Step: 1 << uint(lvl), Points: 3})
+			}
+			cd.Class = "valid"
+		}
 	case 3:
 		if k > 1 {
 			cd.Archs[i+1].Step = cd.Archs[i].Step
@@ -381,8 +391,17 @@ func (c07) Run(c *fw.Ctx) {
 					}
 					db2.Close()
 				}
-			} else if fileExists(p) {
-				// a rejected Create must not have been accepted half-way (file content is not judged here)
+			} else {
+				// a rejected Create leaves the path as it was (absent): a well-formed layout can be created there at once
+				ok := wt.ArchiveInfoList{wt.NewArchiveInfo(wt.Duration(1), 10), wt.NewArchiveInfo(wt.Duration(10), 10)}
+				db2, err2 := wt.Create(p, ok, wt.Sum, 0.5)
+				c.Count("creates_after_a_rejected_create", 1)
+				if err2 != nil {
+					c.Violationf("rejected-create-left-something-behind", fw.J{"candidate": cd, "rejected_with": fmt.Sprint(err), "then": err2.Error()},
+						"Create rejected a list (%v); creating a well-formed layout at the same path right afterwards failed: %v", err, err2)
+				} else {
+					db2.Close()
+				}
 				os.Remove(p)
 			}
 		}
